@@ -211,15 +211,15 @@ impl Check for C18 {
         let mut out = vec![];
         let neutral = Named { names: Names::both('s', "sw"), kind: Kind::Switch, hidden: false, ty: Ty::Os, adjacent: false };
         for (it, vars) in items(seed) {
-            out.push(Unit { level: Level { named: vec![it.clone()], tail: Tail::None, version: None, usage_fallback: false }, len: tier.pick(3, 4), vars: vars.clone() });
-            out.push(Unit { level: Level { named: vec![neutral.clone(), it.clone()], tail: Tail::Pos(vec![PosItem { kind: PosKind::Opt, strict: Strict::Any }]), version: None, usage_fallback: false }, len: tier.pick(2, 3), vars: vars.clone() });
+            out.push(Unit { level: Level { named: vec![it.clone()], tail: Tail::None, version: None, usage_fallback: false }, len: tier.pick(4, 5), vars: vars.clone() });
+            out.push(Unit { level: Level { named: vec![neutral.clone(), it.clone()], tail: Tail::Pos(vec![PosItem { kind: PosKind::Opt, strict: Strict::Any }]), version: None, usage_fallback: false }, len: tier.pick(3, 4), vars: vars.clone() });
         }
         // two env-backed items sharing nothing
         for k1 in [Kind::Switch, Kind::ArgReq, Kind::ArgMany] {
             for k2 in [Kind::ReqFlag, Kind::ArgOpt, Kind::ArgFallback] {
                 let a = Named { names: Names::both('a', "alpha").env(VA), kind: k1, hidden: false, ty: Ty::Os, adjacent: false };
                 let b = Named { names: Names::both('b', "beta").env(VB), kind: k2, hidden: false, ty: Ty::U32, adjacent: false };
-                out.push(Unit { level: Level { named: vec![a, b], tail: Tail::None, version: None, usage_fallback: false }, len: tier.pick(2, 3), vars: vec![VA.to_string(), VB.to_string()] });
+                out.push(Unit { level: Level { named: vec![a, b], tail: Tail::None, version: None, usage_fallback: false }, len: tier.pick(3, 4), vars: vec![VA.to_string(), VB.to_string()] });
             }
         }
         out.into_iter().map(|u| serde_json::to_value(u).unwrap()).collect()
@@ -238,7 +238,7 @@ impl Check for C18 {
         "definitions = every item kind (switch, flag, req_flag, count, argument required/optional/many/some/fallback/last; OsString and u32) backed by {names + one variable, names + two variables, variable only}, alone and beside a neutral switch and an optional positional, plus pairs of env-backed items; configurations = every state {unset, empty, valid, invalid, non-UTF-8} of every declared variable; inputs = every vector of the token tree; reference scanner with the extra rule 'no occurrence on the line -> one synthetic occurrence from the first set variable (flags: present iff set)'; plus: undeclared look-alike variables set/unset give identical outcomes, --help shows [env:NAME ...] state of declared variables only; state = (definition, environment, vector)".into()
     }
     fn bounds(&self, tier: Tier) -> Value {
-        json!({"vector_length": tier.pick("3 (single item), 2 (with neighbours)", "4 / 3"), "variables": "1..2 declared, 5 states each, 4 undeclared look-alikes"})
+        json!({"vector_length": tier.pick("4 (single item), 3 (with neighbours)", "5 / 4"), "variables": "1..2 declared, 5 states each, 4 undeclared look-alikes"})
     }
     fn assumptions(&self) -> Vec<String> {
         vec!["workers are single-threaded processes, so set_var/remove_var between cases is sound".into()]
